@@ -80,10 +80,16 @@ def havoc_emitted(E, st):
         st.ghost["emitted"] = em
 
 
-def make_scope(E, st, name="scope", cls=None):
+def make_scope(E, st, name="scope", cls=None, depth=1):
     """a Scope object of symbolic class; name == type(self).__name__ is the class
-    invariant established by Scope.__init__ (proved under C07)"""
+    invariant established by Scope.__init__ (proved under C07); GlobalScope is the only
+    scope without parent (Scope.inner always passes self)"""
     k = z3.Int(fresh_name(name + "_cls"))
+    if depth > 0:
+        pnone = k == KINDS.code("GlobalScope")
+        parent = SOpt(pnone, make_scope(E, st, name + "_p", depth=depth - 1))
+    else:
+        parent = Opaque(name + ".parent")
     attrs = {
         "name": SKind(k),
         "lines": SInt(z3.Int(fresh_name(name + "_lines"))),
@@ -94,7 +100,7 @@ def make_scope(E, st, name="scope", cls=None):
         "indent": SInt(z3.Int(fresh_name(name + "_indent"))),
         "multiline": SBool(z3.Bool(fresh_name(name + "_multiline"))),
         "__base__": "norminette/scope.py:Scope",
-        "parent": Opaque(name + ".parent"),
+        "parent": parent,
         "vdeclarations_allowed": SOpt(z3.Bool(fresh_name(name + "_vda_none")),
                                       SBool(z3.Bool(fresh_name(name + "_vda")))),
     }
@@ -137,7 +143,7 @@ def make_context(E, st, minhist=0, scope_in_stream=True):
         "tokens": TokList(stream, z3.IntVal(0), n),
         "tkn_scope": SInt(tkn_scope),
         "history": make_history(E, st, minlen=minhist),
-        "scope": make_scope(E, st),
+        "scope": make_scope(E, st, depth=2),
         "errors": st.alloc(ObjCell("ErrorsGhost", {})),
         "file": make_file(E, st),
         "debug": SInt(z3.Int(fresh_name("debug"))),
@@ -147,7 +153,8 @@ def make_context(E, st, minhist=0, scope_in_stream=True):
         "protected": SBool(z3.Bool(fresh_name("protected"))),
         "fname_pos": SInt(z3.Int(fresh_name("fname_pos"))),
         "preproc": make_preproc(E, st),
-        "sub": None,
+        "sub": SOpt(z3.Bool(fresh_name("sub_none")), make_scope(E, st, "sub", depth=2)),
+        "arg_pos": st.alloc(ListCell((SInt(z3.Int(fresh_name("argpos0"))), SInt(z3.Int(fresh_name("argpos1")))))),
     }
     return st.alloc(ObjCell(cls, attrs))
 
